@@ -459,21 +459,24 @@ def server_stream(chk, fresh_dir, clean):
 def subscription_stream(chk, fresh_dir, clean):
     """events= lines -> real parser -> real EventListenerPool (make_group) ->
     one events.notify per class of the hierarchy; how often each reaches the
-    pool's buffer.  Judged on the implementation (exactly once iff the class
-    or one of its superclasses is listed) and queued for the Coq model
-    (Subscribe.check_subscription over C09's generated hierarchy)."""
+    pool's buffer.  Judged on the implementation against the DOCUMENTED name
+    tree (exactly once iff the type's name or a name above it is listed) and
+    queued for the Coq model (Subscribe.check_subscription_names; that the class
+    tree of events.py realises the name tree is theorem c14_class_tree_matches_names)."""
     import c14_cfg
     from supervisor import events
     from supervisor.events import EventTypes
     names = [k for k in vars(EventTypes) if not k.startswith('_')]
     cls_of = dict((k, getattr(EventTypes, k)) for k in names)
-    hierarchy = [c for c in vars(events).values()
-                 if isinstance(c, type) and issubclass(c, events.Event)]
+    # the DOCUMENTED hierarchy is the name tree (docs/events.rst, class EventTypes): EVENT above
+    # everything, NAME above NAME_SUFFIX - not whatever class tree events.py has at the moment
+    def above(a, b_):
+        return a == 'EVENT' or a == b_ or b_.startswith(a + '_')
     rng = chk.rng
     lines = list(names)
     for a in names:
         for b_ in names:
-            if a != b_ and issubclass(cls_of[b_], cls_of[a]):
+            if a != b_ and above(a, b_):
                 lines += ['%s,%s' % (a, b_), '%s,%s' % (b_, a)]            # supertype with its subtype, both orders
     lines += ['PROCESS_STATE,PROCESS_STATE', 'tick_5,TICK_5,TICK', 'TICK_5,TICK_60', 'EVENT,TICK_5,PROCESS_STATE',
               'PROCESS_STATE_RUNNING,EVENT', 'PROCESS_COMMUNICATION_STDOUT,PROCESS_COMMUNICATION,PROCESS_LOG',
@@ -500,17 +503,17 @@ def subscription_stream(chk, fresh_dir, clean):
             chk.violation(rep)
             clean(here)
             continue
-        listed = [cls_of[x.strip().upper()] for x in line.split(',')]
+        listed = [x.strip().upper() for x in line.split(',')]
         gconf = [g for g in r[1].process_group_configs if g.name == 'lis'][0]
         events.clear()
         try:
             pool = gconf.make_group()
             observed = []
-            for c in hierarchy:
+            for nm in names:
                 del pool.event_buffer[:]
-                ev = c.__new__(c)
+                ev = cls_of[nm].__new__(cls_of[nm])
                 events.notify(ev)
-                observed.append((c, sum(1 for e in pool.event_buffer if e is ev)))
+                observed.append((nm, sum(1 for e in pool.event_buffer if e is ev)))
         except Exception as e:
             rep['kind'] = 'building the pool or notifying it raised %s: %s' % (type(e).__name__, e)
             chk.violation(rep)
@@ -518,8 +521,8 @@ def subscription_stream(chk, fresh_dir, clean):
             continue
         finally:
             events.clear()
-        wrong = [(c.__name__, n, 1 if any(issubclass(c, l) for l in listed) else 0) for c, n in observed
-                 if n != (1 if any(issubclass(c, l) for l in listed) else 0)]
+        wrong = [(nm, n, 1 if any(above(l, nm) for l in listed) else 0) for nm, n in observed
+                 if n != (1 if any(above(l, nm) for l in listed) else 0)]
         if wrong:
             rep['kind'] = ('the pool made from this section is not subscribed to exactly its listed event types: one '
                            'notification of %s reaches it %d time(s), expected %d' % wrong[0])
@@ -527,8 +530,159 @@ def subscription_stream(chk, fresh_dir, clean):
             chk.violation(rep)
             clean(here)
             continue
-        cases.append('(%s, [%s])' % (c14_cfg.cstr(line), '; '.join('(T_%s, %d)' % (c.__name__, n) for c, n in observed)))
+        cases.append('(%s, [%s])' % (c14_cfg.cstr(line), '; '.join('(%s, %d)' % (c14_cfg.cstr(nm), n) for nm, n in observed)))
         meta.append(rep)
+        clean(here)
+    return cases, meta
+
+
+def boolean_stream(chk, fresh_dir, clean):
+    """Every boolean / autorestart key x the documented spellings (true false yes
+    no on off 1 0, any case): must be accepted with exactly that value; anything
+    else must be rejected.  Judged on the implementation."""
+    import c14_cfg
+    import c14_gen
+    from supervisor.datatypes import RestartUnconditionally, RestartWhenExitUnexpected
+    yes = ['true', 'yes', 'on', '1', 'TRUE', 'Yes', 'oN']
+    no = ['false', 'no', 'off', '0', 'FALSE', 'No', 'oFF']
+    bad = ['off0', 'of', 'tru', '2', 'y', 'n', 'none', '', '01', 'yes0', '0ff']
+    if chk.tier == 'quick':
+        yes, no, bad = yes[:5], no[:5], bad[:5]
+    keys = []
+    for sec, rows in c14_gen.option_tables().items():
+        for opt, conv in rows:
+            if conv in ('boolean', 'auto_restart') and (sec, opt) not in keys and sec in ('supervisord', 'program:web'):
+                keys.append((sec, opt, conv))
+    keys.append(('eventlistener:lis', 'autostart', 'boolean'))
+    base = c14_gen.grid_base('')
+    n = 0
+    for sec, opt, conv in keys:
+        values = [(v, True) for v in yes] + [(v, False) for v in no] + [(v, None) for v in bad]
+        if conv == 'auto_restart':
+            values += [('unexpected', 'unexpected'), ('UNEXPECTED', 'unexpected')]
+        for v, want in values:
+            cfg = c14_gen._set(base, sec, opt, v)
+            if opt == 'stopasgroup' and want is True:
+                cfg = c14_gen._set(cfg, sec, 'killasgroup', 'true')
+            if opt == 'killasgroup' and want is False:
+                cfg = c14_gen._set(cfg, sec, 'stopasgroup', 'false')
+            here = fresh_dir()
+            path = c14_cfg.write_case(cfg, here)
+            r = c14_cfg.real_parse(path)
+            n += 1
+            chk.dist('stream:boolean-spellings')
+            rep = {'stream': 'boolean', 'label': '[%s] %s=%s' % (sec, opt, v), 'files': _file_texts(cfg, here)}
+            if r[0] == 'exc':
+                rep['kind'] = 'the configuration reader raised %s instead of ValueError' % r[1]
+                chk.violation(rep)
+            elif want is None:
+                if r[0] == 'ok':
+                    rep['kind'] = '%s=%r is not one of the documented boolean spellings but was accepted silently' % (opt, v)
+                    chk.violation(rep)
+            elif r[0] != 'ok':
+                rep['kind'] = 'the documented spelling %s=%s was rejected: %s' % (opt, v, r[2])
+                chk.violation(rep)
+            else:
+                if sec == 'supervisord':
+                    got = getattr(r[1].configroot.supervisord, opt)
+                else:
+                    g = [g_ for g_ in r[1].process_group_configs if g_.name in ('grp', 'lis')
+                         and g_.name == ('grp' if sec == 'program:web' else 'lis')][0]
+                    got = getattr(g.process_configs[0], opt)
+                if conv == 'auto_restart':
+                    got = {RestartUnconditionally: True, RestartWhenExitUnexpected: 'unexpected'}.get(got, got)
+                if got is not want and got != want or type(got) is not type(want):
+                    rep['kind'] = '%s=%s is read as %r, documented meaning %r' % (opt, v, got, want)
+                    chk.violation(rep)
+            clean(here)
+    return n
+
+
+def reread_stream(chk, fresh_dir, clean, wd):
+    """The same ServerOptions object reads one file, then another (what reloadConfig
+    does): after each read the configured set must be the one of the file just
+    read - in particular empty when that file has no program-like sections.
+    Judged on the implementation; each step is also queued for the model."""
+    import c14_cfg
+    import c14_gen
+    from supervisor.options import ServerOptions
+    rng = chk.rng
+    empty = {'main': [('supervisord', [])], 'incs': []}
+    only_sup = {'main': [('supervisord', [('environment', 'A="1"')]), ('supervisorctl', [('serverurl', 'unix:///tmp/s.sock')])], 'incs': []}
+    seqs = []
+    for first in [c14_gen.grid_base, c14_gen.base_config]:
+        seqs.append([first, lambda h: empty])
+        seqs.append([first, lambda h: only_sup, first])
+        seqs.append([lambda h: empty, first, lambda h: empty])
+    one_prog = lambda h: {'main': [('supervisord', []), ('program:solo', [('command', '/bin/solo')])], 'incs': []}
+    seqs.append([c14_gen.grid_base, one_prog, lambda h: empty, one_prog])
+    for _ in range(6 if chk.tier == 'quick' else 150):
+        seqs.append([(lambda h: c14_gen.valid_config(rng, h, chk.tier != 'quick')) if rng.random() < 0.7 else (lambda h: empty)
+                     for _ in range(rng.choice([2, 3]))])
+    cases, meta = [], []
+
+    def expected_names(cfg):
+        secs = dict(c14_cfg.merge_dups(cfg['main']))
+        listed = set()
+        for n, o in secs.items():
+            if n.startswith('group:'):
+                for p_ in dict(o).get('programs', '').split(','):
+                    p_ = p_.strip()
+                    listed.add('program:' + p_ if 'program:' + p_ in secs else 'fcgi-program:' + p_)
+        out = []
+        for n in secs:
+            kind = n.split(':', 1)[0]
+            if kind in ('group', 'eventlistener') or (kind in ('program', 'fcgi-program') and n not in listed):
+                out.append(n.split(':', 1)[1].strip())
+        return sorted(out)
+    for seq in seqs:
+        here = fresh_dir()
+        c14_cfg.set_environ()
+        o = ServerOptions()
+        o.environ_expansions = dict((k, v) for k, v in o.environ_expansions.items() if k in c14_cfg.ENV_KEYS)
+        history = []
+        for step, mk in enumerate(seq):
+            cfg = mk(here)
+            if cfg.get('incs'):
+                cfg = {'main': [s_ for s_ in cfg['main'] if s_[0] != 'include'], 'incs': []}
+                if not any(s_[0] == 'supervisord' for s_ in cfg['main']):
+                    cfg['main'].insert(0, ('supervisord', []))
+            path = c14_cfg.write_case(cfg, here)
+            history.append(_file_texts(cfg, here))
+            o.configfile = path
+            r = c14_cfg._real_parse(o)
+            chk.dist('stream:reread-steps')
+            rep = {'stream': 'reread', 'label': 'read %d of %d by one ServerOptions object' % (step + 1, len(seq)),
+                   'files': history[-1], 'files_read_before': history[:-1]}
+            if r[0] == 'exc':
+                rep['kind'] = 'the configuration reader raised %s instead of ValueError' % r[1]
+                rep['message'] = r[2]
+                chk.violation(rep)
+                break
+            if r[0] == 'err':
+                continue
+            got = sorted(g.name for g in o.process_group_configs)
+            want = expected_names(cfg)
+            if got != want:
+                rep['kind'] = ('after re-reading, the configured process groups are %r although the file just read '
+                               'configures %r' % (got, want))
+                chk.violation(rep)
+                break
+            if signatures(cfg):
+                continue
+            try:
+                atoms = c14_cfg.dump_options(o)
+            except TypeError as e:
+                rep['kind'] = 'after re-reading: ' + str(e)
+                chk.violation(rep)
+                break
+            probs = c14_cfg.effective_problems(o) + judge_expansions(cfg, here, o)
+            if probs:
+                rep['kind'] = 'after re-reading, the accepted configuration violates the property: ' + probs[0]
+                chk.violation(rep)
+                break
+            cases.append(c14_cfg.ccase(cfg, here, atoms))
+            meta.append(rep)
         clean(here)
     return cases, meta
 
@@ -633,8 +787,8 @@ def _run(chk, wd, proved):
             ill = None
             try:
                 atoms = c14_cfg.dump_options(o)
-            except TypeError as e:
-                ill = str(e)
+            except Exception as e:
+                ill = '%s: %s' % (type(e).__name__, e) if not isinstance(e, TypeError) else str(e)
             mon = monitor(o, set(n.split(':', 1)[1].strip() for n, _ in _sections(cfg) if n.startswith('group:')))
             # --- judgement of an acceptance
             accepted_sigs = set()
@@ -793,6 +947,12 @@ def _run(chk, wd, proved):
     # ---- 7. [unix_http_server] / [inet_http_server] (outside the model: judged by a small specification)
     nserver = server_stream(chk, fresh_dir, clean)
 
+    # ---- 7b. boolean spellings on every boolean key; 7c. one options object reading several files in turn
+    nbool = boolean_stream(chk, fresh_dir, clean)
+    rcases, rmeta = reread_stream(chk, fresh_dir, clean, wd)
+    cases += rcases
+    meta += rmeta
+
     # ---- 8. eventlistener sections -> real pool -> notifications of every class of the hierarchy
     scases, smeta = subscription_stream(chk, fresh_dir, clean)
 
@@ -819,7 +979,7 @@ def _run(chk, wd, proved):
     if bare:
         known('C14-bare-format', '%d format strings' % bare)
     for name, ctype, fn, cs, mt in [
-        ('subscription', 'string * list (etype * Z)', 'check_subscription', scases, smeta),
+        ('subscription', 'string * list (string * Z)', 'check_subscription_names', scases, smeta),
         ('expand', 'string * exps * list atom', 'check_expand', ecases, emeta),
         ('kv', 'string * list atom', 'check_kv', kcases, kmeta),
         ('conv', 'string * string * list atom', 'check_conv', ccases, cmeta),
@@ -841,7 +1001,7 @@ def _run(chk, wd, proved):
         chk.violation({'kind': 'proof obligation no longer checks', 'detail': chk.proof_failure,
                        'file': 'coq/props/C14.v'}, nofail=not chk.violations)
     cov = chk.coverage
-    cov['evaluations'] = total + ntext + nserver
+    cov['evaluations'] = total + ntext + nserver + nbool
     cov['distinct_nontrivial'] = len(distinct)
     cov['traces_validated_against_impl'] = total
     cov['exhaustive'] = False
